@@ -46,6 +46,11 @@ KF_MAXSCORE = ("TopDocs by score over a union / intersection of term queries mis
                "too low and the pivot selection prunes the document")
 
 
+KF_BASICFIELD = ("TopDocs by score for a single term on a field indexed without frequencies (IndexRecordOption::Basic) but with fieldnorms "
+                 "misses better (shorter) documents of later blocks: the skip reader reports block-WAND data (fieldnorm 0, tf 0), the block "
+                 "max score is 0 and block_wand_single_scorer skips every full block once the threshold is positive")
+
+
 def only_tie_order_differs(diag):
     """the returned page has exactly the keys of the expected page, only other documents of the boundary key"""
     top, exp = diag.get("top"), diag.get("expected")
@@ -87,6 +92,8 @@ def classify(diag, ev):
         return "C06: " + why
     q = diag.get("q", {})
     key = diag.get("key", {})
+    if q.get("k") == "term" and q.get("f") == "bt" and key.get("kind") in ("score", "tweak_mul", "pair"):
+        return "C06 top-K: " + KF_BASICFIELD
     if ev.get("maxscore_exceeded") and key.get("kind") in ("score", "tweak_mul", "pair"):
         return "C06 top-K: " + KF_MAXSCORE + " [" + ", ".join(ev["maxscore_exceeded"]) + "]"
     if uses_field(q, "nf") and key.get("kind") in ("score", "tweak_mul", "pair"):
@@ -316,6 +323,28 @@ def f47_reproduction(ctx):
     ctx.cov.setdefault("recorded_findings_reproduced", {})["F47 bm25_max_score_exceeded"] = any(KF_MAXSCORE in s for s in seen)
 
 
+def f53_reproduction(ctx):
+    """recorded finding F53: a single term on the Basic-indexed field with fieldnorms (`bt`), 1 and 4 segments; the unions and
+    intersections on the same field run as well (they are accepted: no block-WAND path without frequencies)"""
+    t = lambda x, opt: {"k": "term", "f": "bt", "t": x, "opt": opt}
+    bq = lambda cl: {"k": "bool", "cl": cl, "msm": 1 if all(c["o"] == "should" for c in cl) else 0, "explicit": False}
+    key = {"kind": "score", "cmp": ["natural"]}
+    plan = [[1, 0], [3, 0], [10, 0], [5, 5]]
+    cases = [{"q": t("t0", "basic"), "key": key, "plan": plan}, {"q": t("t1", "freq"), "key": key, "plan": plan},
+             {"q": bq([{"o": "should", "q": t("t0", "basic")}, {"o": "should", "q": t("t1", "basic")}]), "key": key, "plan": plan},
+             {"q": bq([{"o": "must", "q": t("t0", "basic")}, {"o": "must", "q": t("all", "basic")}]), "key": key, "plan": plan}]
+    cp = ctx.path("kf_f53_cases.ndjson")
+    vlib.write_ndjson(cp, cases)
+    seen = []
+    before = ctx.cov["traces_validated_against_impl"]
+    for segs in (1, 4):
+        tp = ctx.path(f"kf_f53_trace_{segs}.ndjson")
+        vlib.run_bin("topk_driver", ["search", "--seed", 3, "--docs", 3000, "--segments", segs, "--fixed", cp, "--out", tp], timeout=300)
+        validate(ctx, vlib.read_ndjson(tp), f"kf_f53_{segs}", expect=seen)
+    ctx.cov["traces_validated_against_impl"] = before
+    ctx.cov.setdefault("recorded_findings_reproduced", {})["F53 basic_field_block_max_zero"] = any(KF_BASICFIELD in s for s in seen)
+
+
 def binding_selftest(ctx, topn_events, search_events):
     results = {}
 
@@ -382,6 +411,7 @@ def run(ctx):
     sev = searches(ctx, runs)
     known_finding_runs(ctx)
     f47_reproduction(ctx)
+    f53_reproduction(ctx)
     flat = [e for ev in sev for e in ev]
     binding_selftest(ctx, tev, flat)
     s = next((e for e in flat if e.get("ev") == "topk" and len(e["all"]) > 20), None)
